@@ -21,6 +21,7 @@ func init() { components["boxsched"] = runBoxSched }
 // thread indices picked at the scheduling points; executions are replayed from scratch.
 
 type boxCall struct {
+	tick  bool // the clock ticks (the epoch counter advances by one)
 	send  bool
 	topic int
 	src   uint16
@@ -55,6 +56,11 @@ func (sr *schedRun) HandleMessage(m *tss.IncMessage) {
 // execute runs the given scripts under the schedule chooser; choose is called with the list of
 // runnable thread indices and returns the index (into that list) to run next.
 func executeSched(scripts [][]boxCall, maxTopics int, choose func(step int, runnable []int) int) (*schedRun, bool) {
+	return executeSchedTicks(scripts, maxTopics, 0, choose)
+}
+
+// executeSchedTicks: as executeSched, after preTicks clock ticks (so that a garbage collection is due at the first Send)
+func executeSchedTicks(scripts [][]boxCall, maxTopics int, preTicks int, choose func(step int, runnable []int) int) (*schedRun, bool) {
 	sr := &schedRun{back: make(chan string), ids: map[*tss.IncMessage]int{}}
 	topicIx := map[string]int{}
 	for t := 0; t < 16; t++ {
@@ -67,7 +73,17 @@ func executeSched(scripts [][]boxCall, maxTopics int, choose func(step int, runn
 		ForwardSend: func(_ uint8, topic []byte, _ []byte, _ ...tss.UniversalID) {
 			sr.events = append(sr.events, schedEvent{sr.current, fmt.Sprintf("fs%d", topicIx[string(topic)])})
 		}}
-	sr.box.VerifSnapshot() // initialise (starts the clock goroutine, which never ticks here)
+	sr.box.VerifSnapshot() // initialise (starts the clock goroutine, which ticks only when a script says so)
+	doTick := func() {
+		e := sr.box.VerifSnapshot().Epoch
+		tick <- time.Time{}
+		for sr.box.VerifSnapshot().Epoch == e {
+			time.Sleep(20 * time.Microsecond)
+		}
+	}
+	for i := 0; i < preTicks; i++ {
+		doTick()
+	}
 	msg.VerifYield = func(point string) {
 		t := sr.threads[sr.current]
 		sr.back <- "yield:" + point
@@ -81,7 +97,9 @@ func executeSched(scripts [][]boxCall, maxTopics int, choose func(step int, runn
 			<-th.resume
 			res := safely(func() string {
 				for _, c := range th.script {
-					if c.send {
+					if c.tick {
+						doTick()
+					} else if c.send {
 						sr.box.Send(uint8(tss.MsgTypeMPC), topicBytes(c.topic), []byte{1}, 1)
 					} else {
 						m := &tss.IncMessage{Data: []byte{1}, Source: c.src, MsgType: uint8(tss.MsgTypeMPC), Topic: topicBytes(c.topic)}
@@ -134,21 +152,28 @@ func executeSched(scripts [][]boxCall, maxTopics int, choose func(step int, runn
 
 // scenario: threads and what each received message's fate must be
 type schedScenario struct {
-	name    string
-	scripts [][]boxCall
+	name     string
+	scripts  [][]boxCall
+	preTicks int // > 0: a garbage collection is due; monitor-only (the interleaved model has no clock)
 }
 
 func schedScenarios() []schedScenario {
 	recv := func(src uint16, topic, id int) boxCall { return boxCall{src: src, topic: topic, id: id} }
 	send := func(topic int) boxCall { return boxCall{send: true, topic: topic} }
+	tick := func() boxCall { return boxCall{tick: true} }
 	return []schedScenario{
-		{"1recv-1send", [][]boxCall{{recv(1, 0, 1)}, {send(0)}}},
-		{"2recv-1send", [][]boxCall{{recv(1, 0, 1)}, {recv(2, 0, 2)}, {send(0)}}},
-		{"1recv(2msgs)-1send", [][]boxCall{{recv(1, 0, 1), recv(1, 0, 2)}, {send(0)}}},
-		{"2recv(2msgs)-1send", [][]boxCall{{recv(1, 0, 1), recv(1, 0, 2)}, {recv(2, 0, 3), recv(2, 0, 4)}, {send(0)}}},
-		{"1recv-2send-same-topic", [][]boxCall{{recv(1, 0, 1), recv(1, 0, 2)}, {send(0)}, {send(0)}}},
-		{"2topics", [][]boxCall{{recv(1, 0, 1), recv(1, 1, 2)}, {send(0)}, {send(1)}}},
-		{"3recv-1send", [][]boxCall{{recv(1, 0, 1)}, {recv(2, 0, 2)}, {recv(3, 0, 3)}, {send(0)}}},
+		{"1recv-1send", [][]boxCall{{recv(1, 0, 1)}, {send(0)}}, 0},
+		{"2recv-1send", [][]boxCall{{recv(1, 0, 1)}, {recv(2, 0, 2)}, {send(0)}}, 0},
+		{"1recv(2msgs)-1send", [][]boxCall{{recv(1, 0, 1), recv(1, 0, 2)}, {send(0)}}, 0},
+		{"2recv(2msgs)-1send", [][]boxCall{{recv(1, 0, 1), recv(1, 0, 2)}, {recv(2, 0, 3), recv(2, 0, 4)}, {send(0)}}, 0},
+		{"1recv-2send-same-topic", [][]boxCall{{recv(1, 0, 1), recv(1, 0, 2)}, {send(0)}, {send(0)}}, 0},
+		{"2topics", [][]boxCall{{recv(1, 0, 1), recv(1, 1, 2)}, {send(0)}, {send(1)}}, 0},
+		{"3recv-1send", [][]boxCall{{recv(1, 0, 1)}, {recv(2, 0, 2)}, {recv(3, 0, 3)}, {send(0)}}, 0},
+		// a garbage collection is due at the first Send (4 epochs have passed); the clock ticks and a message arrives /
+		// a topic starts while that collection is under way; nothing is old enough to expire, so nothing may be lost
+		{"gc-window/arrival", [][]boxCall{{send(1)}, {tick()}, {recv(1, 0, 1), send(0)}}, 4},
+		{"gc-window/start", [][]boxCall{{send(1)}, {tick()}, {send(0), recv(1, 0, 1)}}, 4},
+		{"gc-window/both", [][]boxCall{{send(2)}, {tick()}, {recv(1, 0, 1), send(0)}, {send(1), recv(2, 1, 2)}}, 4},
 	}
 }
 
@@ -186,10 +211,17 @@ func checkSchedOutcome(s *out.Sink, sc schedScenario, sr *schedRun, schedule []i
 		}
 	}
 	for ti, th := range sc.scripts {
-		last := -1
-		lastID := 0
+		// arrival order is required per sender *and topic*: messages of one sender for different topics are released by
+		// different first sends, in whatever order the local party makes those
+		lastOf := map[int]int{}
+		lastIDOf := map[int]int{}
 		for _, c := range th {
-			if c.send {
+			last, seen := lastOf[c.topic]
+			if !seen {
+				last = -1
+			}
+			lastID := lastIDOf[c.topic]
+			if c.send || c.tick {
 				continue
 			}
 			n := handed[c.id]
@@ -209,7 +241,7 @@ func checkSchedOutcome(s *out.Sink, sc schedScenario, sr *schedRun, schedule []i
 					}
 					s.Violate("C14", fmt.Sprintf("order (%s): message %d of sender %d overtook message %d (arrived earlier on the same connection)", how, c.id, c.src, lastID), replay)
 				}
-				last, lastID = pos[c.id], c.id
+				lastOf[c.topic], lastIDOf[c.topic] = pos[c.id], c.id
 			}
 		}
 	}
@@ -229,7 +261,7 @@ func runBoxSched(r *prng.R, s *out.Sink, tier string) {
 		exhaustive := true
 		for {
 			var trace []frame
-			sr, ok := executeSched(sc.scripts, 3, func(step int, runnable []int) int {
+			sr, ok := executeSchedTicks(sc.scripts, 3, sc.preTicks, func(step int, runnable []int) int {
 				c := 0
 				if step < len(stack) {
 					c = stack[step].choice
@@ -251,7 +283,7 @@ func runBoxSched(r *prng.R, s *out.Sink, tier string) {
 			}
 			checkSchedOutcome(s, sc, sr, schedule)
 			// feed a sample of complete schedules to the model, step by step
-			if count%97 == 1 || count <= 3 {
+			if sc.preTicks == 0 && (count%97 == 1 || count <= 3) {
 				emitSchedOps(s, sc, sr)
 			}
 			// next schedule
